@@ -6,6 +6,7 @@ package main
 // The common base of all inputs is the left fold of intersect over the inputs in command-line order: the first input
 // is taken as it is, every later one is intersected with what was accumulated so far (C16).
 //@ func main() ()
+//@   propagates all   [C08] [C16]
 //@   property C16
 //@   loop 1
 //@     transition (= doc (ite (= idx@iter 0) (Document.Data (rlnth docs 0)) (interF (Document.Data (rlnth docs 0)) doc@iter)))   [C16]
